@@ -7,7 +7,8 @@
    frame it emits, request dump, doctor summary).  A "secret" is whatever sits in an inline `api_key`,
    in a header value, or in an environment variable other than the seven RIP_OPENRESPONSES_* variables
    whose values the code copies into frames (`public_env_names`).  `low_world` erases exactly these
-   values (keeping only blank / non-blank, which decides presence).  The provider is a function of
+   values (keeping only blank / non-blank, which decides presence).  TOOL OUTPUT is outside the claim
+   (hypothesis `tools_blind`; the unrestricted statement is refuted below).  The provider is a function of
    (request index, endpoint, request BODY) — the property's "HTTP error whose body echoes the request
    body"; a provider that echoes request HEADERS is outside the quantifier.  Third-party crates'
    logging and everything the model does not contain is covered only by the canary search of the
@@ -15,12 +16,45 @@
 From Coq Require Import Strings.String Strings.Ascii.
 From RipV Require Import Base.Prelude Model.SecretFlow Proofs.SecretFlowProofs Gen.SecretUses.
 
-(* Noninterference: for ALL fuels, scripts (provider / validator / tool behaviours), both entry points
-   (thread message with per-request overrides, session input with the start-up environment config),
-   prompts and initial items: two worlds that differ only in secret values (any layer, inline or
-   {env:..} indirection, env fallbacks, header values) store and show exactly the same frames on both
-   streams — request-dump artifacts, error frames (transport, HTTP error echoing the body, validation),
-   tool frames, provider cursor — and the same doctor summary. *)
+(* Noninterference.  A run's environment is a `wscript`: validator, provider (a function of request index, endpoint
+   and request BODY) and TOOLS, whose output is a function of the call and of the WORLD — the shell tools inherit the
+   authority's whole environment and the file tools can read the configuration files.
+
+   Full-strength statement (all fuels, all scripts, both entry points, all prompts / initial items): two worlds that
+   differ only in secret values store and show the same frames on both streams and the same doctor summary. *)
+Definition c19_noninterference_full : Prop :=
+  forall (fuel : nat) (ws : wscript) (thread : bool) (w1 w2 : world) (prompt : str) (initial : list item),
+    low_world w1 = low_world w2 ->
+    persisted (run_w fuel ws thread w1 prompt initial) = persisted (run_w fuel ws thread w2 prompt initial)
+    /\ doctor w1 = doctor w2.
+
+(* It is FALSE of the faithful model (and of the code: KNOWN_FINDINGS C19/B1, corpus/C19/b1_printenv.json): with the
+   key supplied through the environment, a provider-requested `bash -c 'printenv RIP_OPENRESPONSES_API_KEY'` puts the
+   key into the tool-output frames. *)
+Theorem c19_noninterference_full_refuted : ~ c19_noninterference_full.
+Proof. exact noninterference_full_refuted. Qed.
+Print Assumptions c19_noninterference_full_refuted.
+
+(* Proved in part: under the hypothesis that tool output does not depend on secret values (`tools_blind`: the tools
+   give the same answer in the world with every secret erased) the statement holds for everything else — every layer,
+   inline or {env:..} indirection, env fallbacks, header values, per-request overrides; request-dump artifacts, error
+   frames (transport, HTTP error echoing the body, validation), tool frames, provider cursor, doctor. *)
+Theorem c19_noninterference_partial : forall (fuel : nat) (ws : wscript) (thread : bool) (w1 w2 : world)
+                                             (prompt : str) (initial : list item),
+  tools_blind ws ->
+  low_world w1 = low_world w2 ->
+  persisted (run_w fuel ws thread w1 prompt initial) = persisted (run_w fuel ws thread w2 prompt initial)
+  /\ doctor w1 = doctor w2.
+Proof. exact noninterference_blind_tools. Qed.
+Print Assumptions c19_noninterference_partial.
+
+(* the hypothesis is satisfiable (every tool that ignores the world) and is exactly what the witness violates *)
+Example c19_world_independent_tools_are_blind : forall v p t, tools_blind (mkWScript v p (fun _ => t)).
+Proof. exact const_tools_blind. Qed.
+Example c19_printenv_tool_is_not_blind : ~ tools_blind leak_script.
+Proof. exact printenv_not_blind. Qed.
+
+(* the special case of tools given as a fixed function of the call *)
 Theorem c19_noninterference : forall (fuel : nat) (sc : script) (thread : bool) (w1 w2 : world)
                                      (prompt : str) (initial : list item),
   low_world w1 = low_world w2 ->
